@@ -620,6 +620,8 @@ type Search struct {
 	TestRun  string // -test.run pattern of the worker test
 	Workers  int
 	MaxLevel int // max frontier size per level (0 = unlimited); exceeding marks exhaustive=false
+	// Until (optional) ends this search before the run's deadline, leaving budget for other parts of the check.
+	Until time.Time
 
 	States, Transitions int
 	Outcomes            map[string]int
@@ -712,7 +714,7 @@ func (s *Search) Explore() {
 			maxDepth = d
 		}
 		for depth := 1; depth <= maxDepth; depth++ {
-			if s.Run.Expired() {
+			if s.expired() {
 				s.Run.Exhaustive = false
 				s.Run.Note("stack %s: deadline reached before depth %d", stack, depth)
 				break
@@ -741,7 +743,7 @@ func (s *Search) Explore() {
 			const chunk = 4096
 			partial := false
 			for base := 0; base < len(jobs); base += chunk {
-				if base > 0 && s.Run.Expired() {
+				if base > 0 && s.expired() {
 					partial = true
 					s.Run.Exhaustive = false
 					s.Run.Note("stack %s: deadline reached inside depth %d after %d of %d transitions (depth %d is complete)", stack, depth, base, len(jobs), depth-1)
@@ -798,6 +800,10 @@ func (s *Search) Explore() {
 			s.Run.AddSample(map[string]any{"stack": stack, "path": PathString(frontier[len(frontier)/2].Path)})
 		}
 	}
+}
+
+func (s *Search) expired() bool {
+	return s.Run.Expired() || (!s.Until.IsZero() && time.Now().After(s.Until))
 }
 
 var harnessErrors int
